@@ -189,6 +189,17 @@ Definition c06_iso_encrypt_leaf (c : c06_cfg) (file_key : list N) (l : c06_leaf)
   | None => None
   end.
 
+(* ---- the reference READER for one leaf: the ISO rule for the method, then Algorithm 1 / 1.A of IsoRef.v. Used to judge
+   encrypted files that qpdf WRITES (preserved / copied encryption): a conforming reader honours a /Crypt filter that is
+   still in a stream dictionary. None = ill-formed crypt filter name, or malformed AES data. ---- *)
+Definition c06_iso_decrypt_leaf (c : c06_cfg) (file_key : list N) (l : c06_leaf) : option (list N) :=
+  match c06_leaf_method c l with
+  | None => None
+  | Some C6None => Some (c6l_data l)
+  | Some C6V2 => iso_decrypt_data (c06_dict_R (c6_R c)) file_key false (c6l_num l) (c6l_gen l) (c6l_data l)
+  | Some _ => iso_decrypt_data (c06_dict_R (c6_R c)) file_key true (c6l_num l) (c6l_gen l) (c6l_data l)
+  end.
+
 (* ------------------------------------------------------------------ Algorithms 2-10: the encryption dictionary *)
 Record c06_secrets := {
   c6s_user : list N;
